@@ -317,6 +317,9 @@ func (l *lgen) collection(depth int) geom.Geometry {
 
 // any: all seven types.
 func (l *lgen) any(gcProb int) geom.Geometry {
+	if gcProb > 0 && l.r.Intn(16) == 0 {
+		return l.nestedEmptyHigher()
+	}
 	if gcProb > 0 && l.r.Intn(gcProb) == 0 {
 		return l.collection(0)
 	}
@@ -398,4 +401,40 @@ func applySimil(g geom.Geometry, t simil) geom.Geometry {
 		return g
 	}
 	return g.TransformXY(t.apply)
+}
+
+// nestedEmptyHigher builds a nested collection holding an empty member of higher dimension than its non-empty members,
+// at any position and nesting depth (Dimension() of a collection counts empty members; "the highest dimension" of
+// centroids, points on surface, boundaries and matrices must not).
+func (l *lgen) nestedEmptyHigher() geom.Geometry {
+	r := l.r
+	var g geom.Geometry
+	// a nested collection holding an empty member of higher dimension than its non-empty members, at any position
+	// and nesting depth (Dimension() of a collection counts empty members; "highest dimension" must not)
+	lo := []int{0, 3, 1, 4}[r.Intn(4)] // Point, MultiPoint, LineString, MultiLineString
+	hiMin := 1
+	if lo == 1 || lo == 4 {
+		hiMin = 2
+	}
+	empties := map[int][]geom.Geometry{
+		1: {geom.LineString{}.AsGeometry(), geom.MultiLineString{}.AsGeometry(), geom.Polygon{}.AsGeometry(), geom.MultiPolygon{}.AsGeometry()},
+		2: {geom.Polygon{}.AsGeometry(), geom.MultiPolygon{}.AsGeometry(), mustWKT("MULTIPOLYGON(EMPTY)")},
+	}[hiMin]
+	ms := []geom.Geometry{l.leafOfType(lo), empties[r.Intn(len(empties))]}
+	if r.Intn(2) == 0 {
+		ms = append(ms, l.leafOfType(lo))
+	}
+	r.Shuffle(len(ms), func(i, j int) { ms[i], ms[j] = ms[j], ms[i] })
+	g = geom.NewGeometryCollection(ms).AsGeometry()
+	for k, d := 0, r.Intn(3); k < d; k++ {
+		outer := []geom.Geometry{g}
+		if r.Intn(2) == 0 {
+			outer = append(outer, l.leafOfType(lo))
+		}
+		if r.Intn(3) == 0 {
+			outer = append([]geom.Geometry{empties[r.Intn(len(empties))]}, outer...)
+		}
+		g = geom.NewGeometryCollection(outer).AsGeometry()
+	}
+	return g
 }
